@@ -264,4 +264,5 @@ func (c *Channel) cleanup() {
 	defer c.Close()
 	verifAt("channel.cleanup.recv", c, 0)
 	<-c.ctx.Done()
+	verifAt("channel.after.passed1", nil, 0)
 }
